@@ -246,6 +246,12 @@ def check_cases(run, cases, st, distinct=None):
 
 
 def run_text_stage(run, n=None):
+    """violations registered by this stage carry "stage": "T02" in their replays (common.Run.in_stage)"""
+    with run.in_stage("T02"):
+        return _run_text_stage(run, n)
+
+
+def _run_text_stage(run, n=None):
     """the harness must be built (harness_build()). Returns the counts (also stored in run.notes["text_equity"])."""
     if n is None:
         n = 120 if run.tier == "quick" else 1500
